@@ -22,7 +22,14 @@ cp $SRC/demo_test.go $demo
 tests=$(grep -o '^func Test[A-Za-z0-9_]*' $SRC/demo_test.go | sed 's/func //' | paste -sd'|')
 cd $WT
 clean_demo=$(go test -vet=off -count=1 -run "^($tests)\$" ./$place 2>&1 | tail -3 | tr '\n' ' ')
-git apply $SRC/patch.diff || { echo "patch does not apply"; exit 2; }
+PATCH=$SRC/patch.diff
+[ -f $SRC/patch.rebased.diff ] && PATCH=$SRC/patch.rebased.diff
+if ! git apply $PATCH 2>/dev/null; then
+  patch -p1 --fuzz=3 -s < $PATCH || { echo "patch does not apply"; exit 2; }
+  find . -name '*.orig' -delete
+  git diff > /tmp/seedchk/$P-$M.rebased.diff
+  PATCH=/tmp/seedchk/$P-$M.rebased.diff
+fi
 go build ./... || { echo "patched tree does not build"; exit 2; }
 patched_demo=$(go test -vet=off -count=1 -run "^($tests)\$" ./$place 2>&1 | tail -3 | tr '\n' ' ')
 rm -f $demo
@@ -44,7 +51,7 @@ for id in $CHECKS; do
   echo "check $id quick on patched tree: rc=$rc violations=$v  $(grep -m1 '^VIOLATION' /tmp/seedchk/$P-$M-$id.log)"
   results="$results $id:rc=$rc:viol=$v"
 done
-cp $SRC/patch.diff $OUT/patch.diff
+cp $PATCH $OUT/patch.diff
 cp $SRC/demo_test.go $OUT/demo_test.go
 [ -f $SRC/NOTES.md ] && cp $SRC/NOTES.md $OUT/NOTES.md
 python3 - "$P" "$M" "$clean_demo" "$patched_demo" "${suite:-none}" "$results" <<'PY'
